@@ -3,6 +3,7 @@
      type v = array [2] of int;
      proc p(ref a: v, n: int) { var i: int; i := n; while (i < 2) { a[i] := i; i := i + 1; } }
      proc main() { }
+     proc q() { var w: array [2] of int; }
 
    its abstract program [cx_p], its table [cx_table], [cx_well_typed], and the layout [cx_text]
    ([cx_layout]: the text lexes to the token kinds of cx_p). *)
@@ -17,6 +18,7 @@ Definition cx_ef f := CAdd (AMul (MFac f)).
 Definition cx_lit n := FLit cx0 (LDec n).
 Definition sx_v : text := [118]. Definition sx_p : text := [112]. Definition sx_a : text := [97].
 Definition sx_n : text := [110]. Definition sx_i : text := [105].
+Definition sx_q : text := [113]. Definition sx_w : text := [119].
 
 Definition cx_while : astmt :=
   SWhl cx0 cx0 (CBin (AMul (MFac (FVar (cx_nm sx_i)))) cx0 CLt (AMul (MFac (cx_lit 2)))) cx0
@@ -29,11 +31,15 @@ Definition cx_params : aparams := Some (PRef cx0 cx0 sx_a cx0 (TName cx0 sx_v), 
 Definition cx_type : adecl := DType cx0 cx0 sx_v cx0 (TArr cx0 cx0 cx0 (LDec 2) cx0 cx0 (TName cx0 s_int)) cx0.
 Definition cx_main : adecl := DProc cx0 cx0 s_main cx0 None cx0 cx0 [] SNil cx0.
 
+Definition cx_wvar : avardecl :=
+  {| v_c1 := cx0; v_c2 := cx0; v_x := sx_w; v_c3 := cx0; v_t := TArr cx0 cx0 cx0 (LDec 2) cx0 cx0 (TName cx0 s_int); v_c4 := cx0 |}.
+Definition cx_q : adecl := DProc cx0 cx0 sx_q cx0 None cx0 cx0 [cx_wvar] SNil cx0.
+
 Definition cx_p : aprog :=
   {| a_decls :=
        [ cx_type;
          DProc cx0 cx0 sx_p cx0 cx_params cx0 cx0 [cx_var] (SCons cx_assign (SCons cx_while SNil)) cx0;
-         cx_main ];
+         cx_main; cx_q ];
      a_ceof := cx0 |}.
 
 Definition cx_tree : program := Eval vm_compute in expected cx_p.
@@ -43,7 +49,8 @@ Definition cx_table : gtable :=
 Definition cx_text : text :=
   (str "type v = array [2] of int;" ++ [10]
    ++ str "proc p(ref a: v, n: int) { var i: int; i := n; while (i < 2) { a[i] := i; i := i + 1; } }" ++ [10]
-   ++ str "proc main() { }")%list.
+   ++ str "proc main() { }" ++ [10]
+   ++ str "proc q() { var w: array [2] of int; }")%list.
 
 Ltac cx_binds := apply lt_lookup_binds; vm_compute; reflexivity.
 Ltac cx_ops := first [reflexivity | left; reflexivity | right; cx_ops].
@@ -103,8 +110,10 @@ Proof.
     split; [vm_compute; reflexivity|]. eexists. split; vm_compute; reflexivity.
   - unfold wt_bodies, cx_tree. cbn [pg_decls].
     repeat (apply Forall_cons; [split; [unfold has_entry; cbn [fst pd_name]; try exact I; vm_compute; discriminate|]|]);
-      [| | |apply Forall_nil].
+      [| | | |apply Forall_nil].
     + exact I.
+    + unfold wt_body. cbn [fst snd]. intros pe [name [Hn [Hl _]]]. injection Hn as <-. vm_compute in Hl. injection Hl as <-.
+      cbn [pe_local pd_stmts]. cx_st.
     + unfold wt_body. cbn [fst snd]. intros pe [name [Hn [Hl _]]]. injection Hn as <-. vm_compute in Hl. injection Hl as <-.
       cbn [pe_local pd_stmts]. cx_st.
     + unfold wt_body. cbn [fst snd]. intros pe [name [Hn [Hl _]]]. injection Hn as <-. vm_compute in Hl. injection Hl as <-.
